@@ -99,15 +99,17 @@ def reset(repo=None):
 LEMMAS = {}    # 'lemma:<name>' -> (module name whose globals the text sees, FunctionDef parsed from the sidecar's text)
 
 
-def register_lemma(target, module, text):
+def register_lemma(target, module, text, imports=None):
     node = ast.parse(text).body[0]
-    LEMMAS[target] = (module, node, text)
+    LEMMAS[target] = (module, node, text, dict(imports or {}))
 
 
 class _LemmaModule:
     """The module a lemma is stated in: the repo module's globals, the lemma's own text for hashing."""
-    def __init__(self, mi, text):
+    def __init__(self, mi, text, imports=None):
         self.__dict__.update(mi.__dict__)
+        self.imports = dict(mi.imports)
+        self.imports.update(imports or {})       # names the lemma text uses from other repo modules
         self._text = text
         self.path = "sidecar lemma over " + mi.path
 
@@ -121,8 +123,8 @@ class _LemmaModule:
 def find_function(target):
     """target = 'monkeytype.stubs:update_signature_args' or '...:Class.method' or 'lemma:<name>'."""
     if target in LEMMAS:
-        module, node, text = LEMMAS[target]
-        return _LemmaModule(load(module), text), node
+        module, node, text, imports = LEMMAS[target]
+        return _LemmaModule(load(module), text, imports), node
     mod, qual = target.split(":")
     mi = load(mod)
     node = mi.functions.get(qual)
